@@ -12,7 +12,7 @@ from .. import mporacle as O, gen
 PID = 'C16'
 TAU = 1e-8
 TAU_FN = {'hyperu': 1e-6}      # scipy.special.hyperu itself is only ~1e-9 accurate at shifted parameters
-RULE = ('every function exported by algopy.nthderiv x order n x evaluation point (random in the declared domain at '
+RULE = ('every function exported by algopy.nthderiv x order n in 0..nmax in shuffled sequence (plus n in {16,22,30} at random points) x evaluation point (random in the declared domain at '
         'distance >= delta from singularities, plus hostile points inside the domain: 0, +-tiny, integers, large) x '
         'extra parameters; value compared with mp.diff of the mpmath function; a class = (function, params, n, point class); '
         'non-trivial = n>=1 or the n=0 value check against NumPy/SciPy')
@@ -146,15 +146,16 @@ def run_case(ctx, case):
     rho = 0.5 * min(dist(x, prm), 2.0)
     xm = mp.mpf(x)
     # max |f| on the circle |z-x| = rho (Cauchy bound for all orders)
+    high = [16, 22, 30] if (p['cls'] == 'random' and name not in ('gammaln', 'psi', 'polygamma', 'hyperu')) else []
     try:
         M = max(abs(mf(xm + rho * mp.expjpi(mp.mpf(k) / 8))) for k in range(16))
-        refs = [mp.diff(mf, xm, n) if n else mf(xm) for n in range(0, p['nmax'] + 1)]
+        refs = {n: (mp.diff(mf, xm, n) if n else mf(xm)) for n in list(range(0, p['nmax'] + 1)) + high}
     except (ValueError, ZeroDivisionError, mp.libmp.NoConvergence) as e:
         ctx.skip('reference-unavailable:%s:%s' % (name, p['cls']))       # mpmath could not evaluate the reference here
         return
     # orders are requested in a shuffled sequence (jumps, descents): closed forms must not depend on what was asked before
     order = list(np.random.default_rng(case['seed'] + int(abs(x) * 1000) % 97).permutation(p['nmax'] + 1))
-    for n in [int(v) for v in order]:
+    for n in [int(v) for v in order] + high:
         try:
             got = _call(f, prm, x, n, use_out=(n + int(abs(x) * 10)) % 3)
         except Exception as e:
